@@ -247,6 +247,15 @@ def check_all(ctx, facts):
         ctx.check(bool(le1_false) and fn.guarded([b], le1_false), "R2", TR, fn.loc(b),
                   "spans_per_batch is halved only when batch_size > 1 (so it never reaches 0 while spans remain)", "",
                   "the division at bb%d is reachable with batch_size <= 1" % b, extra="halve")
+    # spans_per_batch starts at a positive value and is only ever divided inside the loop (the division being guarded by
+    # batch_size > 1, it stays >= 1: a batch of zero spans makes no progress and the loop never ends)
+    div_blocks = {b for b, _ in div_info}
+    other_defs = sorted(db for (db, i, st) in fn.defs(per_batch) if db in body and db not in div_blocks)
+    ctx.check(not other_defs, "R2", TR, fn.loc(other_defs[0]) if other_defs else fn.span,
+              "inside the send loop spans_per_batch is only ever divided by a constant (never assigned another value, which could be 0)",
+              "definitions in the loop: %s" % sorted(div_blocks),
+              "spans_per_batch is assigned at %s from something other than its own quotient: with the value 0 the window is empty, "
+              "sent_spans does not advance and the call never returns" % [fn.loc(b) for b in other_defs], extra="per-batch")
     # ---------------------------------------------------------------- R3: the window encoded is the window counted
     rng = [(b, s) for b, blk in enumerate(fn.blocks) if b in body for s in blk["stmts"]
            if s["k"] == "assign" and s["rv"]["k"] == "agg" and s["rv"].get("adt", "").endswith("ops::range::Range")]
